@@ -84,6 +84,12 @@ def run(chk, decks, clauses, seed, opts_of=None, npts=96):
             rng.shuffle(d['cells'])
             rng.shuffle(d['surfs'])
             d['cardorder'] = True
+        if i % 7 == 3:
+            for c in d['cells']:         # redundant parentheses around runs of operands: same region
+                if not c.get('like'):
+                    c['parens'] = ('pairs%d' % (1 + (i // 7) % 3)) if c.get('lat') else rng.randrange(1000)
+        if i % 7 == 5:
+            adeck.imp_datacards(d, i // 7)         # importances on an IMP:N data card, written as reals
         if i % 5 == 1:
             adeck.irrelevant_keywords(d, rng)      # VOL=, NONU=, TMP=, UNC:N= ... on the cell cards
         d['pts'] = adeck.grid_points(rng, npts)
